@@ -185,10 +185,11 @@ fn pick_len(r: &mut Rng, lim: usize) -> usize {
 pub fn gen_random(seed: u64, idx: u64) -> Plan {
     let mut r = Rng::derive(mix(seed, idx), "c11-random");
     let default = *r.pick(&[0usize, 1, 2, 10, 100, 1024, 4096, 65_536]);
-    let rt = match r.below(4) {
+    let rt = match r.below(5) {
         0 => None,
         1 => Some(default / 2),
         2 => Some(default),
+        3 => Some(0),
         _ => Some(default * 2 + 7),
     };
     let mode = if r.chance(1, 2) { Mode::Cancel } else { Mode::Detached };
@@ -352,10 +353,11 @@ impl Scenario for C11 {
             Tier::Quick => *r.pick(&[0usize, 1, 2, 10, 100]),
             Tier::Thorough => *r.pick(&[0usize, 1, 2, 10, 100, 1024]),
         };
-        let rt = match r.below(4) {
+        let rt = match r.below(5) {
             0 => None,
             1 => Some(default / 2),
             2 => Some(default),
+            3 => Some(0),
             _ => Some(default + 7),
         };
         let lim = effective_limit(var, default, rt);
